@@ -51,13 +51,38 @@ def _fake_module(script):
     return s, m
 
 
+_SAVED = {}
+
+
+def _install(mod, s):
+    """Substitute the random source however the module reaches it: `random.randrange(..)`, or names imported from random."""
+    import random as _random
+    if not _SAVED:
+        _SAVED["global"] = {n: getattr(_random, n) for n in ("randrange", "randint")}
+        _SAVED["mod"] = {n: getattr(mod, n) for n in ("random", "randrange", "randint") if hasattr(mod, n)}
+    _random.randrange, _random.randint = s.randrange, s.randint
+    for n in ("randrange", "randint"):
+        if n in _SAVED["mod"]:
+            setattr(mod, n, getattr(s, n))
+
+
+def _restore(mod):
+    import random as _random
+    if _SAVED:
+        for n, f in _SAVED["global"].items():
+            setattr(_random, n, f)
+        for n, f in _SAVED["mod"].items():
+            setattr(mod, n, f)
+        _SAVED.clear()
+
+
 def _enumerate(mod, kind, value_filter=None):
     """Depth-first enumeration of all draw outcomes of <kind>.generate(); yields rows."""
     cls = {"init": mod.InitSequenceStart, "ping": mod.PingSequenceStart, "account": mod.AccountReplySequenceStart}[kind]
     script = []
     while True:
         s = Script(script)
-        mod.random = s
+        _install(mod, s)
         exc = ""
         value = seq1 = seq2 = fv = -1
         try:
@@ -113,7 +138,6 @@ def run(tier, corrupt=False):
     with scratch("c12-") as tmp:
         load_eolib_stubbed(snapshot_repo(tmp))
         mod = imp("eolib.packet.sequence_start")
-        real_random = mod.random
         with scratch("c12blk-") as d:
             bw = BlockWriter(d)
             try:
@@ -130,7 +154,7 @@ def run(tier, corrupt=False):
                     bw.add({"kind": kind, "rows": rows})
                     counts[kind] = n
             finally:
-                mod.random = real_random
+                _restore(mod)
             bw.close()
             if corrupt:
                 b = load_block(d, 1)
